@@ -5,6 +5,7 @@ package main
 // automaton; a forward dataflow computes the set of automaton states reaching each point and reports bad exits.
 
 import (
+	"fmt"
 	"go/ast"
 	"go/token"
 	"go/types"
@@ -213,10 +214,18 @@ func runEVT(w *World, f *Func, r evtRule) []evtFinding {
 			out = append(out, evtFinding{n.Pos(), n, msg})
 		}
 	}
+	// a state is "<automaton state>§<knowledge about single-assignment boolean locals>"; rules only see the first part
+	splitState := func(st string) (string, string) {
+		if i := strings.Index(st, "§"); i >= 0 {
+			return st[:i], st[i:]
+		}
+		return st, ""
+	}
 	apply := func(states map[string]bool, evs []string, at ast.Node) map[string]bool {
 		for _, ev := range evs {
 			res := map[string]bool{}
-			for st := range states {
+			for full := range states {
+				st, know := splitState(full)
 				nx := st
 				if r.step != nil {
 					if s2 := r.step(st, ev); s2 != "" {
@@ -228,11 +237,46 @@ func runEVT(w *World, f *Func, r evtRule) []evtFinding {
 						report(at, msg)
 					}
 				}
-				res[nx] = true
+				if ev == "BACKEDGE" || ev == "NEXT" {
+					know = ""
+				}
+				res[nx+know] = true
 			}
 			states = res
 		}
 		return states
+	}
+	ef := w.ent(f)
+	// boolKnowledge refines the states with what a branch on a single-assignment boolean local tells, dropping
+	// states that already know the opposite (correlated conditions such as `if isText {…} if !isText {…}`)
+	boolKnowledge := func(states map[string]bool, cond ast.Expr, branch bool) map[string]bool {
+		id := identOf(cond)
+		if id == nil {
+			return states
+		}
+		obj, ok := info.Uses[id].(*types.Var)
+		if !ok || obj.IsField() || len(ef.assigns[obj]) != 1 || ef.addrOf[obj] {
+			return states
+		}
+		if b, ok := obj.Type().Underlying().(*types.Basic); !ok || b.Kind() != types.Bool {
+			return states
+		}
+		tagT, tagF := fmt.Sprintf("§%d=T", obj.Pos()), fmt.Sprintf("§%d=F", obj.Pos())
+		mine, other := tagT, tagF
+		if !branch {
+			mine, other = tagF, tagT
+		}
+		res := map[string]bool{}
+		for full := range states {
+			if strings.Contains(full, other) {
+				continue // infeasible
+			}
+			if !strings.Contains(full, mine) {
+				full += mine
+			}
+			res[full] = true
+		}
+		return res
 	}
 	isComm := func(n ast.Node) bool {
 		if cc, ok := w.parent[n].(*ast.CommClause); ok && cc.Comm == n {
@@ -279,7 +323,8 @@ func runEVT(w *World, f *Func, r evtRule) []evtFinding {
 				if ret, ok := p.(*ast.ReturnStmt); ok {
 					if r.ret != nil {
 						kind := retKind(f, ret)
-						for st := range states {
+						for full := range states {
+							st, _ := splitState(full)
 							if msg := r.ret(st, ret, kind); msg != "" {
 								report(ret, msg)
 							}
@@ -296,16 +341,25 @@ func runEVT(w *World, f *Func, r evtRule) []evtFinding {
 		}
 		for si, succ := range b.Succs {
 			st2 := states
-			if len(b.Succs) == 2 && len(b.Nodes) > 0 && r.edge != nil && b.Kind != cfg.KindRangeLoop {
+			if len(b.Succs) == 2 && len(b.Nodes) > 0 && b.Kind != cfg.KindRangeLoop {
 				if cond, ok := b.Nodes[len(b.Nodes)-1].(ast.Expr); ok {
-					ei := edgeInfo{Cond: cond, Branch: si == 0}
+					var tag ast.Expr
 					if cc, ok := w.parent[cond].(*ast.CaseClause); ok {
 						if sw, ok := w.parent[w.parent[cc]].(*ast.SwitchStmt); ok && sw.Tag != nil {
-							ei.Tag = sw.Tag
+							tag = sw.Tag
 						}
 					}
-					if evs := r.edge(ei); len(evs) > 0 {
-						st2 = apply(st2, evs, cond)
+					// go/cfg keeps conditions whole: decompose !, && (true edge) and || (false edge) into leaves
+					for _, le := range decomposeCond(cond, si == 0) {
+						if tag == nil {
+							st2 = boolKnowledge(st2, le.Cond, le.Branch)
+						}
+						if r.edge != nil {
+							le.Tag = tag
+							if evs := r.edge(le); len(evs) > 0 {
+								st2 = apply(st2, evs, cond)
+							}
+						}
 					}
 				}
 			}
@@ -316,6 +370,14 @@ func runEVT(w *World, f *Func, r evtRule) []evtFinding {
 				}
 				if evs := r.prim(&pseudo{kind, succ.Stmt}); len(evs) > 0 {
 					st2 = apply(st2, evs, succ.Stmt)
+				}
+				if kind == "BACKEDGE" {
+					cleared := map[string]bool{}
+					for full := range st2 {
+						st, _ := splitState(full)
+						cleared[st] = true
+					}
+					st2 = cleared
 				}
 			}
 			changed := false
@@ -395,4 +457,23 @@ func storesTo(info *types.Info, n ast.Node) []*types.Var {
 		add(n.X)
 	}
 	return out
+}
+
+// decomposeCond lists the leaf conditions whose truth value is implied by taking the given branch of cond.
+func decomposeCond(cond ast.Expr, branch bool) []edgeInfo {
+	cond = unparen(cond)
+	switch x := cond.(type) {
+	case *ast.UnaryExpr:
+		if x.Op == token.NOT {
+			return decomposeCond(x.X, !branch)
+		}
+	case *ast.BinaryExpr:
+		switch {
+		case x.Op == token.LAND && branch, x.Op == token.LOR && !branch:
+			return append(decomposeCond(x.X, branch), decomposeCond(x.Y, branch)...)
+		case x.Op == token.LAND || x.Op == token.LOR:
+			return nil // which operand decided is unknown on this edge
+		}
+	}
+	return []edgeInfo{{Cond: cond, Branch: branch}}
 }
